@@ -6,7 +6,8 @@
    after a restart on the real directory.  TLC computes the crashed disk from the
    steps, restarts and recovers it with the Spec's operators, and decides
      C29_RecoverAgrees  the Spec's recovery equals what the real code reads
-     C29_Discard, C29_Others, C29_LeaseOnly, C29_AllOrNothing. *)
+     C29_Discard, C29_Others, C29_LeaseOnly, C29_AllOrNothing, and for the lease checker's cancel_lease
+     (consts.cancel = the lease records to remove) C29_CancelKeepsOthers. *)
 EXTENDS ShareFileDisk, Json, IOUtils, TLCExt
 
 Traces == JsonDeserialize(IOEnv.TRACE_FILE)
@@ -31,6 +32,7 @@ Verdict ==
      ELSE IF ~C29_Others(before, after, paths, targets, ToSet(C.lease_targets)) THEN "C29_Others"
      ELSE IF C.lease_only /\ ~C29_LeaseOnly(before, after, paths) THEN "C29_LeaseOnly"
      ELSE IF ~C29_AllOrNothing(before, after, paths, C.expect) THEN "C29_AllOrNothing"
+     ELSE IF "cancel" \in DOMAIN C /\ ~C29_CancelKeepsOthers(before, after, paths, targets, ToSet(C.cancel)) THEN "C29_CancelKeepsOthers"
      ELSE ""
 
 TraceInit == tid \in 1..Len(Traces) /\ l = 1 /\ bad = "none"
